@@ -104,6 +104,17 @@ Theorem C07_no_send_without_authentic_receive : forall evs e x k,
 Proof. exact no_send_without_authentic_receive. Qed.
 Print Assumptions C07_no_send_without_authentic_receive.
 
+(* Restart (interface down/up = Peer.Stop + Peer.Start): no key, no pending handshake, nothing staged,
+   nothing sent, and the index table honours NOTHING -- data under every session ever derived is refused.
+   (All other theorems, in particular C07_index_table_is_slots, quantify over histories with restarts.) *)
+Theorem C07_restart_refuses_all : forall evs,
+  let s' := fst (step (R evs) Restart) in
+  keys s' = [] /\ hs s' = None /\ staged s' = 0 /\ snd (step (R evs) Restart) = out0 /\
+  (forall i, honoured s' i = false) /\
+  (forall sid, step s' (Recv sid) = (set_now s' (now s' + 1), out0)).
+Proof. exact restart_refuses_all. Qed.
+Print Assumptions C07_restart_refuses_all.
+
 (* The first message accepted under next promotes it: next -> current -> previous, old previous dropped. *)
 Theorem C07_confirmation_promotes : forall evs n,
   let s := R evs in
@@ -201,10 +212,10 @@ Print Assumptions C07_at_most_two_at_once.
 
 (* The executable property [holdsb] (Keypairs/Spec.v, the one evaluated on the device's observed
    traces) accepts the model's own behaviour on EVERY sequence of the property's event kinds up to
-   length 5 (slot names resolved against the state; 66 430 sequences), and of the extended alphabet
+   length 4 (slot names resolved against the state, plus Restart; 11 111 sequences), and of the extended alphabet
    (extra ticks, spontaneous initiation, stale response, forged message under next / current, replay)
-   up to length 4 (54 241 sequences).  The thorough tier
-   evaluates length 6 / 5.  The unbounded statement is kept as a definition, not proved.  It needs
+   up to length 3 (4 369 sequences).  The thorough tier
+   evaluates length 6 (1 111 111 sequences) / 5 (1 118 481); the quick tier keeps this file cheap.  The unbounded statement is kept as a definition, not proved.  It needs
    the harness's discipline (time moves in whole seconds, fewer than 10^9 events): [holdsb] sees ages
    in whole seconds, which cannot tell 180 s - 1 ns from 179 s -- see C07_boundary_180 below. *)
 Definition C07_model_satisfies_spec_statement : Prop :=
@@ -222,13 +233,13 @@ Example C07_boundary_180 :
   holdsb (model_trace init (CompleteInitiator 7 ++ [Tick (179 * sec); Send])) = true.
 Proof. vm_compute. repeat split; reflexivity. Qed.
 
-Theorem C07_model_satisfies_spec_depth5 : explore alphabet7 5 init sst0 = Some 66430.
+Theorem C07_model_satisfies_spec_depth4 : explore alphabet7 4 init sst0 = Some 11111.
 Proof. vm_compute. reflexivity. Qed.
-Print Assumptions C07_model_satisfies_spec_depth5.
+Print Assumptions C07_model_satisfies_spec_depth4.
 
-Theorem C07_model_satisfies_spec_full_depth4 : explore alphabet_full 4 init sst0 = Some 54241.
+Theorem C07_model_satisfies_spec_full_depth3 : explore alphabet_full 3 init sst0 = Some 4369.
 Proof. vm_compute. reflexivity. Qed.
-Print Assumptions C07_model_satisfies_spec_full_depth4.
+Print Assumptions C07_model_satisfies_spec_full_depth3.
 
 (* Non-vacuity: a history that fills all three slots, confirms, ages keys past every limit. *)
 Definition demo : list event :=
@@ -281,6 +292,16 @@ Example C07_nonvacuous_forged :
   [(true, [], false); (false, [], false); (false, [], false); (false, [], false);
    (true, [0; 0], true); (false, [], false); (false, [], false); (false, [0], false)].
 Proof. vm_compute. reflexivity. Qed.
+
+(* restart with an unconfirmed key in next, a current key and a pending handshake: all gone *)
+Example C07_nonvacuous_restart :
+  let evs := CompleteInitiator 7 ++ [CompleteResponder 8; Send; Initiate true; Restart] in
+  map id (keys (final step init evs)) = [] /\
+  map id (keys (final step init (removelast evs))) = [0; 1] /\
+  table (final step init evs) = [] /\ length (table (final step init (removelast evs))) = 3%nat /\
+  map (fun o => (o_acc o, o_tun o)) (outs step (final step init evs) [Recv 0; Recv 1; Respond 0 9; Send]) =
+    [(false, false); (false, false); (false, false); (false, false)].
+Proof. vm_compute. repeat split; reflexivity. Qed.
 
 Example C07_nonvacuous_spec_rejects :
   (* the checker is not vacuous: a trace in which data is sent under the unconfirmed key is rejected *)
